@@ -12,19 +12,20 @@ def scen(name, archs, caps, L, D, **kw):
     return s
 
 
-def fam_SA(tier, **kw):
+def fam_SA(tier, L=None, D=None, **kw):
     """Single archetype churn + growth from every small initial capacity."""
-    L, D, n = (3, 7, 3) if tier == "quick" else (5, 10, 4)
+    L0, D0, n = (4, 9, 3) if tier == "quick" else (6, 12, 4)
+    L, D = L or L0, D or D0
     caps = [0, 1, 2, 3] if tier == "quick" else [0, 1, 2, 3, 4]
     return [scen("S-A/cap%d" % c, [THR], [c], L, D, iter_destroy=[THR], iter_destroy_max_n=n, **kw) for c in caps]
 
 
-def fam_SB(tier, **kw):
+def fam_SB(tier, L=None, D=None, **kw):
     """Two (thorough: three) archetypes: world-level dispatch, multi-archetype queries."""
     if tier == "quick":
-        return [scen("S-B/caps%s" % "".join(map(str, c)), [ONE, THR], c, 2, 6, iter_destroy=[100, 101, 102], iter_destroy_max_n=3, **kw) for c in ([0, 0], [2, 1])]
-    out = [scen("S-B/caps%s" % "".join(map(str, c)), [ONE, THR], c, 3, 8, iter_destroy=[100, 101, 102], iter_destroy_max_n=4, **kw) for c in ([0, 0], [2, 1], [0, 3])]
-    out.append(scen("S-B3/caps000", [ONE, THR, FOU], [0, 0, 0], 2, 7, iter_destroy=[100, 102], iter_destroy_max_n=4, **kw))
+        return [scen("S-B/caps%s" % "".join(map(str, c)), [ONE, THR], c, L or 2, D or 7, iter_destroy=[100, 101, 102], iter_destroy_max_n=3, **kw) for c in ([0, 0], [2, 1])]
+    out = [scen("S-B/caps%s" % "".join(map(str, c)), [ONE, THR], c, L or 3, D or 9, iter_destroy=[100, 101, 102], iter_destroy_max_n=4, **kw) for c in ([0, 0], [2, 1], [0, 3])]
+    out.append(scen("S-B3/caps000", [ONE, THR, FOU], [0, 0, 0], 2, (D or 9) - 1, iter_destroy=[100, 102], iter_destroy_max_n=4, **kw))
     return out
 
 
@@ -38,16 +39,16 @@ def fam_SC(tier, narch=16, **kw):
     return out
 
 
-def fam_SD(tier, **kw):
+def fam_SD(tier, L=None, D=None, **kw):
     """Clone from every reachable state, then diverging histories on either world."""
     if tier == "quick":
-        return [scen("S-D/cap%d" % c, [THR], [c], 2, 6, max_clones=1, iter_destroy=[THR], iter_destroy_max_n=2, key_kinds=[0, 3], vias=["World"], **kw) for c in (0, 2)]
-    return [scen("S-D/cap%d" % c, [THR], [c], 3, 8, max_clones=(2 if c == 0 else 1), iter_destroy=[THR], iter_destroy_max_n=3, key_kinds=[0, 3], vias=["World"], **kw) for c in (0, 2, 3)]
+        return [scen("S-D/cap%d" % c, [THR], [c], L or 3, D or 7, max_clones=1, iter_destroy=[THR], iter_destroy_max_n=2, key_kinds=[0, 3], vias=["World"], **kw) for c in (0, 2)]
+    return [scen("S-D/cap%d" % c, [THR], [c], L or 3, D or 9, max_clones=(2 if c == 0 else 1), iter_destroy=[THR], iter_destroy_max_n=3, key_kinds=[0, 3], vias=["World"], **kw) for c in (0, 2, 3)]
 
 
 def fam_SE(tier, **kw):
     """Generations preset (hook H2) just below 2^32-1: histories across the overflow boundary."""
-    L, D = (2, 6) if tier == "quick" else (3, 8)
+    L, D = (2, 7) if tier == "quick" else (3, 9)
     presets = [(MAXV - 1, 7), (7, MAXV - 2), (MAXV - 1, MAXV - 2), (MAXV, MAXV)]
     out = []
     nm = lambda v: ("max%d" % (v - MAXV)) if v > 1000 else str(v)
